@@ -516,16 +516,29 @@ def r3_truth_table(ctx: Context) -> None:
               "self.scheduler in __init__ is not the validator's result", init, st[0] if st else init.node)
     rows = []
     table = {}
-    for s_none, c_none in itertools.product([True, False], repeat=2):
-        env = {"cls": Opaque("cls"), "samplers": None if s_none else Opaque("samplers"),
+    from ..absint import Licence
+    cases = [(s_none, c_none, None) for s_none, c_none in itertools.product([True, False], repeat=2)]
+    # the validator may look inside the sequence (emptiness): the same four rows are then decided on a concrete two-element line-up, and an empty
+    # sequence handed in together with a scheduler is still "both given"
+    cases.append((False, False, "empty"))
+    for s_none, c_none, shape in cases:
+        given = Opaque("samplers") if shape is None else []
+        env = {"cls": Opaque("cls"), "samplers": None if s_none else given,
                "scheduler": None if c_none else Opaque("scheduler")}
         ev = Evaluator(prog, v)
-        out = ev.run(env)
+        try:
+            out = ev.run(env)
+        except Licence:
+            if shape == "empty":
+                raise
+            given = [Opaque("sampler0"), Opaque("sampler1")]
+            env["samplers"] = None if s_none else given
+            out = Evaluator(prog, v).run(env)
         if out.kind == "raise":
             got = f"raise {out.name}"
         else:
             val = out.value
-            if isinstance(val, Constructed) and val.cls == "RoundRobinScheduler" and val.args and isinstance(val.args[0], Opaque) and val.args[0].tag == "samplers":
+            if isinstance(val, Constructed) and val.cls == "RoundRobinScheduler" and val.args and (val.args[0] is given or (isinstance(val.args[0], Opaque) and val.args[0].tag == "samplers")):
                 got = "RoundRobinScheduler(samplers)"
             elif isinstance(val, Opaque) and val.tag == "scheduler":
                 got = "scheduler"
@@ -538,8 +551,10 @@ def r3_truth_table(ctx: Context) -> None:
         else:
             want = "RoundRobinScheduler(samplers)"
         row = {"samplers_is_None": s_none, "scheduler_is_None": c_none, "outcome": got, "expected": want}
+        if shape is not None:
+            row["samplers"] = "empty sequence"
         rows.append(row)
-        key = f"samplers={'None' if s_none else 'given'},scheduler={'None' if c_none else 'given'}"
+        key = f"samplers={'None' if s_none else 'given' if shape is None else 'given(empty)'},scheduler={'None' if c_none else 'given'}"
         ctx.check(got == want, "R3.truth-table", f"Calibrator.validate-args:{key}",
                   f"{key} -> {want}", f"constructor with {key} gives `{got}`, documented `{want}`", v, out.node)
     ctx.tables["C09.R3.truth_table"] = {"rows": rows, "exhaustive": True}
